@@ -3,9 +3,8 @@ import sys, os, argparse, traceback
 sys.path.insert(0, os.path.dirname(os.path.abspath(__file__)))
 from common import MachineryError
 
-REG = {
-    "C01": ("props.scores", "run"), "C02": ("props.scores", "run"), "C03": ("props.scores", "run"),
-}
+from registry import CHECKS
+REG = dict((k, (v["mod"], "run")) for k, v in CHECKS.items())
 
 
 def main():
